@@ -160,15 +160,24 @@ def unary_classes(c):
 
 # ---------------------------------------------------------------- coercion
 
+SPELLINGS = [('.5', 0.5), ('-.25', -0.25), ('+.5', 0.5), ('+3', 3), ('-4', -4), ('007', 7), ('2.50', 2.5), ('0.125', 0.125), ('12', 12), ('+0.75', 0.75), ('1.5', 1.5), ('-0.5', -0.5), ('.0625', 0.0625), ('10', 10), ('1', 1), ('0', 0), ('-1', -1)]
+
+
 def check_coercion(case):
     name, which = case['f'], case['w']
     if which == 'text':
         x = case['x']
+        spelling = repr(x)
+        if case.get('sp') is not None:
+            # other ways of spelling a number as text: optional sign, digits, optional fraction
+            spelling, x = SPELLINGS[case['sp'] % len(SPELLINGS)]
         if not DOM[name](x) or not comparable(name, x):
             raise Skip('outside-domain')
-        a = Env(vars={'v_x': repr(x)}).parse('%s(v_x)' % name)
+        a = Env(vars={'v_x': spelling}).parse('%s(v_x)' % name)
         b = Env(vars={'v_x': x}).parse('%s(v_x)' % name)
-        what = 'text %r vs number' % repr(x)
+        if case.get('sp') is not None and case.get('lit'):
+            a = Env().parse('%s("%s")' % (name, spelling))
+        what = 'text %r vs number %r' % (spelling, x)
     else:
         val = (which == 'true')
         x = 1.0 if val else 0.0
@@ -408,8 +417,11 @@ LAWS = [
         rule='22 unary functions x reals (grids of +-0, 1 ulp, 1e-9, 1e-3 around -1, 0, 1, +-pi/2, +-pi, integers -10..10; log-uniform 1e-9..1e9 both signs) given as variable, literal or numeric text: '
              'inside the domain the value equals the 50-digit reference within 1e-9 relative + 1e-12; outside it the outcome is an error; non-trivial = |x| not in {0, 0.5, 1, 2} or text argument or outside the domain'),
     Law('coercion', check_coercion, quick=1500, thorough=40000, shards=(4, 8),
-        strategy=st.fixed_dictionaries({'f': st.sampled_from(UNARY), 'w': st.sampled_from(['text', 'true', 'false']), 'x': reals(), 'junk': junk_text}),
-        rule='f("x") = f(x), f(TRUE) = f(1), f(FALSE) = f(0) for every unary function; non-numeric text -> error'),
+        strategy=st.fixed_dictionaries({'f': st.sampled_from(UNARY), 'w': st.sampled_from(['text', 'text', 'true', 'false']), 'x': reals(), 'junk': junk_text,
+                                        'sp': st.one_of(st.none(), st.integers(0, 16)), 'lit': st.booleans()}),
+        classes=lambda c: (('spelling:' + SPELLINGS[c['sp'] % len(SPELLINGS)][0]) if c['w'] == 'text' and c['sp'] is not None else 'w:' + c['w'],),
+        required=('spelling:.5', 'spelling:-.25', 'spelling:+3', 'spelling:007', 'w:true', 'w:false'),
+        rule='f("x") = f(x) for repr spellings and for 17 other spellings of numbers as text (leading dot, explicit sign, leading/trailing zeros) given as variable or string literal, f(TRUE) = f(1), f(FALSE) = f(0) for every unary function; non-numeric text -> error'),
     Law('atan2', check_atan2, quick=3000, thorough=100000,
         strategy=st.fixed_dictionaries({'x': st.one_of(st.sampled_from([0.0, 1.0, -1.0, 0.5, -2.0]), reals()), 'y': st.one_of(st.sampled_from([0.0, 0.0, 1.0, -1.0]), reals())}),
         classes=lambda c: (('origin' if c['x'] == 0 and c['y'] == 0 else ('x-axis' if c['y'] == 0 else ('y-axis' if c['x'] == 0 else 'quadrant'))),),
